@@ -1071,6 +1071,21 @@ impl Scenario for SinkFaults {
         let a = mk(rng);
         let b = mk(rng);
         let sched = gen_sched(rng, &SchedOpts { est_choices: 200, threads: threads + 1, jump_max_ns: 5_000_000_000, stall_clock_max_ns: 1_000_000_000, max_steps: 60_000 });
+        // a long outage: one tee leg rejects 40 - 140 entries per thread in a row with I/O errors (every sink kind);
+        // decided from the schedule seed, so that the other draws stay where they were
+        let ho = mix(ju(&sched, "seed", 0), 0x0a7a6e);
+        let (per, a) = if ho % 12 == 0 {
+            let per = 40 + (ho / 12) % 100;
+            let mut v = vec![];
+            for t in 1..=threads {
+                for s in 0..per {
+                    v.push(json!([t, s, "I"]));
+                }
+            }
+            (per, J::Array(v))
+        } else {
+            (per, a)
+        };
         json!({
             "sched": sched,
             "kind": *rng.pick(&["immediate_tee", "any_immediate_tee", "queue_tee", "queue_tee"]),
